@@ -1,6 +1,7 @@
 package core
 
 import (
+	"os"
 	"fmt"
 	"go/ast"
 	"go/token"
@@ -256,6 +257,9 @@ func (c *Ctx) Const(spec string) *types.Const {
 //	"chain/consensus.DPoVP.InsertBlock"      method (value or pointer receiver)
 //	"...$1"                                   n-th anonymous function inside
 func (c *Ctx) Fn(spec string) *ssa.Function {
+	if os.Getenv("LEMOLINT_ANCHORS") != "" {
+		fmt.Fprintf(os.Stderr, "ANCHOR-FN %s\n", spec)
+	}
 	base := spec
 	var anon []string
 	if i := strings.Index(spec, "$"); i >= 0 {
